@@ -18,7 +18,8 @@
 //
 //	chk <nblocks> <ninstr> <nvals> <ntypes> <recover bid|-> <nres> <res tid>...
 //	    <nparams> <Params[i] value id>... <nsig> <tid>...   (nsig: receiver type, then Signature.Params)
-//	    <nfree> <FreeVars[i] value id>... <nlocals> <Locals[i] instruction id|->...
+//	    <nfree> <FreeVars[i] value id>... <nlocals> <Locals[i] instruction id|->... <naive 0|1>
+//	    (naive: the function was built with ir.NaiveForm, i.e. without lifting)
 //	T  { <ctor> <under tid> <core tid|-> <flags> <len> <nkids> <kid tid>... } x ntypes
 //	V  { <kind> <tid|-> <nrefs|~> <ref>... } x nvals           value id = ninstr + position
 //	B  { <Index> <npreds> <pred>... <nsuccs> <succ>... <ninstrs> } x nblocks
@@ -861,6 +862,7 @@ func (d *Dumper) Function(pid int, fn *ir.Function, mode string) {
 			hdr.WriteString(" -")
 		}
 	}
+	hdr.WriteString(" " + itoa(b2i(strings.Contains(mode, "N"))))
 	tt.expand()
 
 	rec := "-"
